@@ -293,3 +293,68 @@ Example C05_hyps_met :
   | _ => (RPanic, 0%N, 0%N, [])
   end = (ROk 1153%N, 24%N, 4%N, [EInfo 1 50 24 0 [1153%N]]).
 Proof. vm_compute. reflexivity. Qed.
+
+(* ======================= "noticed at the very next node, wherever it lands": whole-call form (C05Prompt/*.v) =======================
+   The theorems at the top of this file are about the NODE entered after the stop.  These are about a whole call - any state,
+   position, window, depth, fuel - during which the oracle fires at poll k ([s_cancel s = Some k], not yet fired). *)
+From Clemens.C05Prompt Require PromptBase PromptGo PromptSyncGo PromptAdjacentGo.
+
+(* (1) the poll that reports done is the LAST poll of the call: every frame above it returns the error without polling again *)
+Theorem C05_one_firing_poll : forall f s p alpha beta depth ply cn pm rh r s' k,
+  s_cancel s = Some k -> ~ fired s ->
+  go_negamax f s p alpha beta depth ply cn pm rh = (r, s') ->
+  (s_polls s' <= k + 1)%N /\ (r = RCancel -> s_polls s' = (k + 1)%N) /\ (r <> RCancel -> (s_polls s' <= k)%N).
+Proof. exact PromptGo.go_negamax_one_firing_poll. Qed.
+Print Assumptions C05_one_firing_poll.
+
+(* (2) every counted node was preceded by a poll of its own ([addw a n]: the uint64 counter a after n increments, n unwrapped) *)
+Theorem C05_every_node_polls : forall f s p alpha beta depth ply cn pm rh r s',
+  go_negamax f s p alpha beta depth ply cn pm rh = (r, s') ->
+  exists n, s_nodes s' = PromptBase.addw (s_nodes s) n /\
+    (n <= s_polls s' - s_polls s)%N /\ (r = RCancel -> (n + 1 <= s_polls s' - s_polls s)%N).
+Proof. exact PromptGo.go_negamax_every_node_polls. Qed.
+Print Assumptions C05_every_node_polls.
+
+(* (3) hence no node after the stop: a call cancelled at poll k has counted at most one node per poll BEFORE the firing one *)
+Theorem C05_no_node_after_stop : forall f s p alpha beta depth ply cn pm rh s' k,
+  s_cancel s = Some k -> ~ fired s ->
+  go_negamax f s p alpha beta depth ply cn pm rh = (RCancel, s') ->
+  s_polls s' = (k + 1)%N /\
+  exists n, s_nodes s' = PromptBase.addw (s_nodes s) n /\ (n <= k - s_polls s)%N.
+Proof. exact PromptGo.go_negamax_no_node_after_stop. Qed.
+Print Assumptions C05_no_node_after_stop.
+
+(* the same stop one poll later costs at most one more node *)
+Theorem C05_stop_one_poll_later : forall f s p alpha beta depth ply cn pm rh k sx r2 sy,
+  s_cancel s = Some k ->
+  go_negamax f s p alpha beta depth ply cn pm rh = (RCancel, sx) ->
+  go_negamax f (set_cancel s (Some (k + 1)%N)) p alpha beta depth ply cn pm rh = (r2, sy) ->
+  (s_nodes sy = s_nodes sx \/ s_nodes sy = w64 (s_nodes sx + 1)) /\
+  (r2 <> RCancel -> s_polls sy = (k + 1)%N).
+Proof. exact PromptAdjacentGo.go_negamax_stop_one_poll_later. Qed.
+Print Assumptions C05_stop_one_poll_later.
+
+(* (4) the stop lands in ONE fixed search tree: a run that is not cancelled is the same run under every later (or no) stop *)
+Theorem C05_prefix_deterministic : forall f s p alpha beta depth ply cn pm rh k c2 r s',
+  s_cancel s = Some k -> PromptSyncGo.later k c2 ->
+  go_negamax f s p alpha beta depth ply cn pm rh = (r, s') -> r <> RCancel ->
+  go_negamax f (set_cancel s c2) p alpha beta depth ply cn pm rh = (r, set_cancel s' c2).
+Proof. exact PromptSyncGo.go_negamax_prefix_deterministic. Qed.
+Print Assumptions C05_prefix_deterministic.
+
+(* Search as a whole: the first loop makes no poll after the firing one, and an answering Search has polled at most k+1 times;
+   afterwards exactly the one fallback loop of C05_fallback_only_if_nothing runs (see PromptGo.go_search_stop for the full split) *)
+Theorem C05_search_polls : forall iters fuel rep s root req m s' k,
+  s_cancel s = Some k -> ~ fired s ->
+  go_search iters fuel rep s root req = (ROk m, s') ->
+  (s_polls s <= s_polls s' <= k + 1)%N.
+Proof. exact PromptGo.go_search_polls. Qed.
+Print Assumptions C05_search_polls.
+
+(* the node counter is a uint64 that wraps: read over Z without a no-wrap hypothesis "nodes <= polls" is false (witness) *)
+Theorem C05_nodes_monotone_refuted :
+  exists s root r s', go_search_root 50 s root 2 (- INF go_econsts) (INF go_econsts) = (r, s') /\
+    (s_nodes s' < s_nodes s)%N /\
+    ~ (Z.of_N (s_nodes s') - Z.of_N (s_nodes s) >= 0).
+Proof. exact PromptGo.go_nodes_monotone_refuted. Qed.
+Print Assumptions C05_nodes_monotone_refuted.
